@@ -9,6 +9,7 @@ from __future__ import annotations
 import io
 import logging
 import sys
+import zlib
 
 import parse
 
@@ -16,6 +17,19 @@ from ..gen.render import render_feature
 
 HOOK_NAMES = ["before_all", "after_all", "before_feature", "after_feature", "before_rule", "after_rule",
               "before_scenario", "after_scenario", "before_step", "after_step", "before_tag", "after_tag"]
+
+
+class CustomAssertion(AssertionError):
+    pass
+
+
+class CustomError(Exception):
+    pass
+
+
+# what an "other exception" may be: none of these has a special meaning for behave (a plain NotImplementedError is NOT a pending step)
+ERROR_CLASSES = [RuntimeError, ValueError, KeyError, NotImplementedError, OSError, LookupError, TypeError, ZeroDivisionError,
+                 CustomError, AttributeError]
 
 
 class InjectedHookError(Exception):
@@ -47,7 +61,9 @@ def _parse_asid(text):
 
 @parse.with_pattern(r"b\d+")
 def _parse_bad(text):
-    raise ValueError("converter refuses %r" % text)
+    # a user-defined type converter may fail with any exception, not only ValueError (lookup table -> KeyError, ...)
+    exc = (ValueError, KeyError, ZeroDivisionError, TypeError, RuntimeError, LookupError)[int(text[1:]) % 6]
+    raise exc("converter refuses %r" % text)
 
 
 class Obs(object):
@@ -109,10 +125,18 @@ class RunLab(object):
             if oc == "pass":
                 return
             if oc == "fail":
+                if zlib.crc32(text.encode("utf-8")) % 4 == 0:
+                    raise CustomAssertion(state.messages.get(text, "assertion subclass raised in %s" % text))
                 assert False, state.messages.get(text, "assertion failed in %s" % text)
             if oc == "error":
-                raise RuntimeError(state.messages.get(text, "boom in %s" % text))
+                # "raises any other exception": the class varies with the step text (deterministic, replayable)
+                exc = ERROR_CLASSES[zlib.crc32(text.encode("utf-8")) % len(ERROR_CLASSES)]
+                state.seen_error_classes.add(exc.__name__)
+                raise exc(state.messages.get(text, "boom in %s" % text))
             if oc == "pending":
+                if zlib.crc32(text.encode("utf-8")) % 3 == 0:
+                    from behave.exception import PendingStepError
+                    raise PendingStepError("pending %s" % text)
                 raise self.StepNotImplementedError("pending %s" % text)
             if oc == "skip":
                 context.scenario.skip()
@@ -154,11 +178,14 @@ class RunLab(object):
                             or (fault.get("ks") is not None and k in fault["ks"])
                         if hit:
                             state.faults_fired.append((k,) + rec)
+                            msg = "injected hook failure #%d" % k
+                            if fault.get("message"):
+                                msg += " " + fault["message"]
                             if fault.get("exc") == "AssertionError":
-                                raise AssertionError("injected hook failure #%d" % k)
+                                raise AssertionError(msg)
                             if fault.get("exc") == "KeyboardInterrupt":
                                 raise KeyboardInterrupt()
-                            raise InjectedHookError("injected hook failure #%d" % k)
+                            raise InjectedHookError(msg)
                 finally:
                     state.in_user_code -= 1
             hook.__name__ = name
@@ -184,6 +211,7 @@ class RunLab(object):
         st.outcomes = program["outcomes"]
         st.messages = messages or {}
         st.calls, st.hooks, st.events = [], [], []
+        st.seen_error_classes = set()
         st.hook_count = 0
         st.hook_fault = hook_fault
         st.faults_fired = []
